@@ -25,8 +25,12 @@ pub struct Table {
 }
 //!end
     impl Table {
-        // ASSUMED (repo functions, not verified here): Table::open_run / new_run
-        #[verifier::external_body] pub(crate) fn open_run(&self) -> (r: Result<Run, MonorailError>) { unimplemented!() }
+        // the id the run pointer file records (None: no pointer file) - a function of the table's files at the time of the call
+        pub uninterp spec fn recorded(&self) -> Option<int>;
+        // ASSUMED (repo functions, not verified here): Table::open_run decodes the pointer file / new_run starts at 0
+        #[verifier::external_body] pub(crate) fn open_run(&self) -> (r: Result<Run, MonorailError>)
+            ensures r matches Ok(run) ==> self.recorded() == Some(run.id as int), r matches Err(MonorailError::TrackingRunNotFound(_)) ==> self.recorded() is None
+        { unimplemented!() }
         #[verifier::external_body] pub(crate) fn new_run(&self) -> (r: Run) ensures r.id == 0 { unimplemented!() }
     }
 }
@@ -34,14 +38,16 @@ pub struct Table {
 // ---------- C12: slot arithmetic ----------
 pub open spec fn next_slot(i: int, m: int) -> int { if i >= m { 1 } else { i + 1 } }
 
-//!fn src/app/run.rs get_next_tracking_run props=C12
+//!fn src/app/run.rs get_next_tracking_run props=C12,C13
 fn get_next_tracking_run(
     cfg: &core::Config,
     tracking_table: &tracking::Table,
 ) -> ⟦(res: ⟧Result<tracking::Run, MonorailError>⟦)⟧
 @    ensures
 @        // C12: the id handed to a run is next_slot(previous id, max_retained_runs); a missing pointer counts as id 0
-@        res matches Ok(r) ==> exists|old_id: int| 0 <= old_id && r.id == #[trigger] next_slot(old_id, cfg.max_retained_runs as int), // [C12]
+@        res matches Ok(r) ==> r.id == next_slot(match tracking_table.recorded() { Some(i) => i, None => 0 }, cfg.max_retained_runs as int), // [C12,C13]
+@        // C13: with more than one retained run the slot handed out is never the one the pointer records (that slot holds the last completed run)
+@        (res is Ok && cfg.max_retained_runs >= 2 && tracking_table.recorded() is Some && 1 <= tracking_table.recorded()->Some_0 <= cfg.max_retained_runs) ==> res->Ok_0.id != tracking_table.recorded()->Some_0, // [C13]
 @        res matches Ok(r) ==> 1 <= r.id && (cfg.max_retained_runs >= 1 ==> r.id <= cfg.max_retained_runs), // [C12]
 {
     // obtain current log info counter and increment it before using
